@@ -6,7 +6,7 @@ import os
 import random
 import re
 
-from .. import casing, common as c, corpus, gen, l1, l1facts, translate
+from .. import casing, common as c, corpus, gen, l1, l1facts, translate, rs2lean
 from ..gen import P
 
 THEOREMS = [("Sylvia.Thm.C18", "C18." + t) for t in
@@ -16,7 +16,8 @@ THEOREMS = [("Sylvia.Thm.C18", "C18." + t) for t in
              "foldl_diags_mono", "duplicate_outcome_rejected", "new_entry_diag_kept", "missing_payload_diag",
              "data_wrong_scenario_diag", "data_wrong_place_diag"]] + \
            [("Sylvia.Thm.Obl.Complete.C18", "Obl.extraction_complete_C18"), ("Sylvia.Thm.Obl.T.msgTypeNew_documented", "Obl.msgTypeNew_documented"),
-            ("Sylvia.Thm.Obl.T.replyOn_documented", "Obl.replyOn_documented")]
+            ("Sylvia.Thm.Obl.T.replyOn_documented", "Obl.replyOn_documented"),
+            ("Sylvia.Thm.ReplyOnFn", "ReplyOnFn.excludes_eq"), ("Sylvia.Thm.ReplyOnFn", "ReplyOnFn.excludes_symmetric")]
 
 
 # ---------------------------------------------------------------------------------------------
@@ -519,6 +520,11 @@ def run(ctx):
     ctx.assumptions += ["'rejected' at L1 = the expansion raised at least one proc_macro_error diagnostic or returned a syn::Error; message texts are not compared",
                         "span accuracy is checked on the small rustc batch only (primary span inside the annotated impl block)"]
     translate.regenerate()
+    # function translator: ReplyOn::excludes -> Extracted/ReplyOnFns.lean (proved equal to the model's `Reply.excludes`)
+    ro_problems = rs2lean.regenerate("replyon")
+    ctx.cov["function_translator_replyon"] = {"source": "sylvia-derive/src/parser/attributes/msg.rs::ReplyOn::excludes", "problems": ro_problems}
+    if ro_problems:
+        ctx.obligation_failed("function-translator(replyon)", "; ".join(ro_problems)[:1500])
     c.prove(ctx, ["Sylvia.Thm.C18"], THEOREMS)
     rng = random.Random(ctx.seed * 19 + 18)
     progs, ops, expect = [], [], []
